@@ -822,6 +822,18 @@ func (r *c11Run[K, V]) explore() {
 	for i := 0; i < cfg.Prefix; i++ {
 		root = append(root, c11Op{Kind: "set", Key: i, Cost: cfg.Costs[0], TTL: cfg.TTLs[0]})
 	}
+	// shrink/heat: a cache that was much fuller once (its sketch keeps the peak size) and whose few
+	// survivors are hot - the loading cache sizes its sketch by the live count only
+	if n := env.Int("shrink", 0); n > 0 {
+		for i := n; i < cfg.Prefix; i++ {
+			root = append(root, c11Op{Kind: "del", Key: i})
+		}
+		for h := 0; h < env.Int("heat", 0); h++ {
+			for i := 0; i < n; i++ {
+				root = append(root, c11Op{Kind: "get", Key: i})
+			}
+		}
+	}
 	// Sharding: every shard runs the whole (cheap) search so that deduplication is exact; the expensive part,
 	// the save/load oracle, is evaluated by the shard that owns the state (canonical hash mod NShards).
 	// States and transitions are counted by the owner only, so the merged totals are exact.
